@@ -2,7 +2,7 @@ CONSTANTS
   Types <- T2
   TypeSeq <- T2s
   Owners <- O2
-  SubOpts <- OptOnce
+  SubOpts <- OptPlain
   AutoOpts <- AutoBulk
   RVs = {"none"}
   UnsubModes = {}
@@ -13,10 +13,10 @@ CONSTANTS
   NoErrs = {FALSE}
   RaiseTypes <- TAB
   SubTypes <- TAB
-  MaxSubs = 2
+  MaxSubs = 3
   MaxRaises = 1
   MaxUnsubs = 1
-  MaxDepth = 2
+  MaxDepth = 1
   MaxOps = 1
   WithDrop = FALSE
   RemovedMayBeSkipped = FALSE
@@ -25,15 +25,5 @@ CONSTANTS
 INIT Init
 NEXT Next
 VIEW viewE
-INVARIANT TypeOK
-INVARIANT WeakGone
-INVARIANT FreedGone
-INVARIANT InOrder
-PROPERTY ExactlyOnce
-PROPERTY SubscribedAtRaise
-PROPERTY Complete
-PROPERTY HaltStops
-PROPERTY NoErrorsContained
-PROPERTY RejectedUnchanged
-PROPERTY NeverAgain
+ACTION_CONSTRAINT ExportT
 CHECK_DEADLOCK FALSE
